@@ -11,11 +11,15 @@
      - `<D>_smap`: as a syntactic equality `=` of trees.  For the samplers reading one word this
        is by computation; for the others it follows from the `req` statement by functional
        extensionality (the only axiom used in the first part of this file).
-   Then the semantic corollaries (`<D>_affine`, `<D>_affine_real`) for the exact semantics
-   `evals` of Base/Run.v.                                                                     *)
+   Then the semantic corollaries (`<D>_affine`, `<D>_scale`) for the exact semantics `evals` of
+   Base/Run.v: the parameterised sampler yields the real y leaving the words `rest` iff the standard
+   sampler yields some x leaving the same words and y = loc + scale * x.
+   Last, the families where the expressions inside the decisions change with the parameters, so that
+   only a semantic statement holds: InverseGaussian (mu, lambda) -> (c mu, c lambda), and Triangular
+   and Pert under x -> a + b x on (min, max, mode) (Pert through the tree simulation `rsim`).      *)
 From Coq Require Import Reals ZArith List Lra Lia Bool FunctionalExtensionality.
 From Interval Require Import Xreal.
-From RD Require Import Base.Expr Base.Run Model.Sampler Model.Continuous Proofs.LawsInvCdf.
+From RD Require Import Base.Expr Base.Run Model.Sampler Model.Continuous Proofs.LawsInvCdf Proofs.LawsTriangular.
 Import ListNotations.
 Open Scope Z_scope.
 Open Scope sampler_scope.
@@ -459,3 +463,296 @@ Proof.
   - intros z v H. rewrite gamma_scale_eval in H by exact S. real_arg H.
 Qed.
 End Semantic.
+
+(* ================================================================================================== *)
+(* ---- InverseGaussian: (mu, lambda) -> (c mu, c lambda) scales the sample by c -------------------------- *)
+(* Here the expressions inside the decision  u <= mu / (mu + x)  change, so the trees differ; the
+   statement is semantic: the same words are read, the decision has the same real value on both
+   sides and the result is multiplied by c.                                                            *)
+Lemma evals_bind {A B} (r : run A) (k : A -> run B) v :
+  evals (bind r k) v <-> exists a, evals r a /\ evals (k a) v.
+Proof.
+  split.
+  - induction r as [a|c a b k0 IH|e k0 IH|c]; cbn; intros E.
+    + exists a. split; [constructor|exact E].
+    + inversion E; subst. destruct (IH _ H6) as [a0 [E0 E1]]. exists a0. split; [|exact E1]. eapply EvAsk; eauto.
+    + inversion E; subst. destruct (IH _ H3) as [a0 [E0 E1]]. exists a0. split; [|exact E1]. eapply EvFloor; eauto.
+    + inversion E.
+  - intros [a [E0 E1]]. induction E0; cbn; [exact E1|eapply EvAsk; eauto|eapply EvFloor; eauto].
+Qed.
+
+Definition ig_x (mu l v : expr) : expr :=
+  mu +. mu /. (num 2 *. l) *. (mu *. v *. v -. esqrt (num 4 *. l *. (mu *. v *. v) +. mu *. v *. v *. (mu *. v *. v))).
+Definition ig_rad (m lam rv : R) : R := 4 * lam * (m * rv * rv) + m * rv * rv * (m * rv * rv).
+Definition ig_xr (m lam rv : R) : R := m + m / (2 * lam) * (m * rv * rv - sqrt (ig_rad m lam rv)).
+
+Lemma ig_x_inv mu l v m lam xx : evalX mu = Xreal m -> evalX l = Xreal lam -> evalX (ig_x mu l v) = Xreal xx ->
+  exists rv, evalX v = Xreal rv /\ lam <> 0 /\ xx = ig_xr m lam rv.
+Proof.
+  intros Hm Hl. unfold ig_x. cbn [evalX xbin xun esqrt]. rewrite Hm, Hl, !num_eval.
+  destruct (evalX v) as [|rv]; cbn [Xmul Xadd Xsub Xsqrt Xdiv Xbind Xbind2 Xlift Xlift2];
+    unfold Xdiv'; destruct (is_zero_spec (2 * lam)) as [Z|Z]; intros H; try discriminate H.
+  injection H as <-. exists rv. repeat split; auto. lra.
+Qed.
+Lemma ig_x_intro mu l v m lam rv : evalX mu = Xreal m -> evalX l = Xreal lam -> evalX v = Xreal rv ->
+  lam <> 0 -> evalX (ig_x mu l v) = Xreal (ig_xr m lam rv).
+Proof.
+  intros Hm Hl Hv L. unfold ig_x. cbn [evalX xbin xun esqrt]. rewrite Hm, Hl, Hv, !num_eval.
+  cbn [Xmul Xadd Xsub Xsqrt Xdiv Xbind Xbind2 Xlift Xlift2]. unfold Xdiv'.
+  rewrite is_zero_false by lra. reflexivity.
+Qed.
+Lemma ig_rad_scale c m lam rv : ig_rad (c * m) (c * lam) rv = c * c * ig_rad m lam rv.
+Proof. unfold ig_rad. ring. Qed.
+Lemma ig_xr_scale c m lam rv : 0 < c -> lam <> 0 -> ig_xr (c * m) (c * lam) rv = c * ig_xr m lam rv.
+Proof.
+  intros Hc L. unfold ig_xr. rewrite ig_rad_scale.
+  rewrite sqrt_mult_alt by nra. rewrite sqrt_square by lra. field. lra.
+Qed.
+
+Section IG.
+Variables (t : fty) (mu l mu' l' : expr) (m lam c : R).
+Hypothesis Hc : 0 < c.
+Hypothesis Hmu : evalX mu = Xreal m.
+Hypothesis Hl : evalX l = Xreal lam.
+Hypothesis Hmu' : evalX mu' = Xreal (c * m).
+Hypothesis Hl' : evalX l' = Xreal (c * lam).
+
+Lemma ig_scale_e ws rest y :
+  (exists e, evals (inverse_gaussian_e t mu l ws) (e, rest) /\ evalX e = Xreal y) ->
+  (exists e', evals (inverse_gaussian_e t mu' l' ws) (e', rest) /\ evalX e' = Xreal (c * y)).
+Proof.
+  intros [e [E V]]. unfold inverse_gaussian_e, sbind in E. apply evals_bind in E.
+  destruct E as [[v ws1] [E1 E2]]. destruct ws1 as [|w ws2]; [inversion E2|].
+  cbn [draw_std sbind bind next_word sret sask] in E2.
+  change (mu +. mu /. (num 2 *. l) *. (mu *. v *. v -. esqrt (num 4 *. l *. (mu *. v *. v) +. mu *. v *. v *. (mu *. v *. v))))
+    with (ig_x mu l v) in E2.
+  inversion E2 as [|c0 a0 b0 k0 xu q v0 Hu Hq Hk|]; subst.
+  (* the decision's right-hand side *)
+  cbn [evalX xbin] in Hq. rewrite Hmu in Hq. destruct (evalX (ig_x mu l v)) as [|xx] eqn:Ex; [discriminate|].
+  destruct (ig_x_inv _ _ _ _ _ _ Hmu Hl Ex) as (rv & Hv & L & ->).
+  cbn [Xadd Xdiv Xbind2] in Hq. unfold Xdiv' in Hq.
+  destruct (is_zero_spec (m + ig_xr m lam rv)) as [Z|Z]; [discriminate|]. injection Hq as <-.
+  assert (evalX (ig_x mu' l' v) = Xreal (c * ig_xr m lam rv)) as Ex'.
+  { rewrite <- ig_xr_scale by assumption. apply ig_x_intro; auto.
+    intros Q. apply L. apply (Rmult_eq_reg_l c); lra. }
+  assert (evalX (mu' /. (mu' +. ig_x mu' l' v)) = Xreal (m / (m + ig_xr m lam rv))) as Hq'.
+  { cbn [evalX xbin]. rewrite Hmu', Ex'. cbn [Xadd Xdiv Xbind2]. unfold Xdiv'.
+    assert (c * m + c * ig_xr m lam rv <> 0) as NZ by (intros Q; apply Z; apply (Rmult_eq_reg_l c); lra).
+    rewrite is_zero_false by exact NZ. f_equal. field. split; assumption. }
+  set (le := rcmp CLe xu (m / (m + ig_xr m lam rv))) in Hk.
+  exists (if le then ig_x mu' l' v else mu' *. mu' /. ig_x mu' l' v). split.
+  - unfold inverse_gaussian_e, sbind. apply evals_bind. exists (v, w :: ws2). split; [exact E1|].
+    cbn [draw_std sbind bind next_word sret sask]. eapply EvAsk; [exact Hu|exact Hq'|]. fold le.
+    destruct le; inversion Hk; subst; constructor.
+  - destruct le; inversion Hk; subst.
+    + rewrite Ex in V. injection V as <-. exact Ex'.
+    + cbn [evalX xbin] in V |- * . rewrite Hmu, Ex in V. rewrite Hmu', Ex'.
+      cbn [Xmul Xdiv Xbind2] in V |- * . unfold Xdiv' in V |- * .
+      destruct (is_zero_spec (ig_xr m lam rv)) as [Z0|Z0]; [discriminate|]. injection V as <-.
+      rewrite is_zero_false by (intros Q; apply Z0; apply (Rmult_eq_reg_l c); lra).
+      f_equal. field. split; [exact Z0|lra].
+Qed.
+End IG.
+
+(* dyadic parameters: c = mc * 2^ec, (c mu, c lambda) are again dyadic *)
+Definition dy_mul (c q : Z * Z) : Z * Z := (fst c * fst q, snd c + snd q)%Z.
+Lemma dyR_mul c q : dyR (dy_mul c q) = dyR c * dyR q.
+Proof. unfold dyR, dy_mul. cbn [fst snd]. rewrite mult_IZR, powerRZ_add by lra. ring. Qed.
+
+Theorem inverse_gaussian_scale t c mean shape ws rest y : 0 < dyR c ->
+  (exists e, evals (inverse_gaussian t mean shape ws) (e, rest) /\ evalX e = Xreal y) <->
+  (exists e', evals (inverse_gaussian t (dy_mul c mean) (dy_mul c shape) ws) (e', rest) /\ evalX e' = Xreal (dyR c * y)).
+Proof.
+  intros Hc. unfold inverse_gaussian. split.
+  - apply (ig_scale_e t _ _ _ _ (dyR mean) (dyR shape) (dyR c) Hc); rewrite ?dyx_eval, ?dyR_mul; reflexivity.
+  - intros H.
+    assert (0 < / dyR c) as Hi by now apply Rinv_0_lt_compat.
+    pose proof (ig_scale_e t (dyx (dy_mul c mean)) (dyx (dy_mul c shape)) (dyx mean) (dyx shape)
+                  (dyR c * dyR mean) (dyR c * dyR shape) (/ dyR c) Hi) as G.
+    assert (/ dyR c * (dyR c * y) = y) as Ey by (field; lra).
+    rewrite <- Ey. apply G; auto.
+    + now rewrite dyx_eval, dyR_mul.
+    + now rewrite dyx_eval, dyR_mul.
+    + rewrite dyx_eval. f_equal. field. lra.
+    + rewrite dyx_eval. f_equal. field. lra.
+Qed.
+
+(* ---- Triangular: x -> a + b x applied to (min, max, mode), b > 0 -------------------------------------- *)
+(* the decision  u (max - min) < mode - min  is scaled by b on both sides, so its outcome is the same *)
+Lemma Q_tri_affine a b mn mx mode u : 0 < b ->
+  Q_tri (a + b * mn) (a + b * mx) (a + b * mode) u = a + b * Q_tri mn mx mode u.
+Proof.
+  intros Hb. unfold Q_tri.
+  destruct (Rlt_dec (u * (mx - mn)) (mode - mn)) as [L|L];
+    destruct (Rlt_dec (u * (a + b * mx - (a + b * mn))) (a + b * mode - (a + b * mn))) as [L'|L']; try nra.
+  - replace (u * (a + b * mx - (a + b * mn)) * (a + b * mode - (a + b * mn)))
+      with (b * b * (u * (mx - mn) * (mode - mn))) by ring.
+    rewrite sqrt_mult_alt by nra. rewrite sqrt_square by lra. ring.
+  - replace ((a + b * mx - (a + b * mn) - u * (a + b * mx - (a + b * mn))) * (a + b * mx - (a + b * mode)))
+      with (b * b * ((mx - mn - u * (mx - mn)) * (mx - mode))) by ring.
+    rewrite sqrt_mult_alt by nra. rewrite sqrt_square by lra. ring.
+Qed.
+
+Lemma triangular_sem t mn mx mode ws rest y :
+  (exists e, evals (triangular t mn mx mode ws) (e, rest) /\ evalX e = Xreal y) <->
+  (exists w, ws = w :: rest /\ y = Q_tri (dyR mn) (dyR mx) (dyR mode) (uR_std t w)).
+Proof.
+  destruct ws as [|w ws'].
+  - split; [intros [e [E _]]; inversion E|intros [w [Q _]]; discriminate Q].
+  - destruct (triangular_value t mn mx mode w ws') as [[e0 E0] H]. split.
+    + intros [e [E V]]. destruct (H _ E) as [H1 H2]. cbn [fst snd] in H1, H2. subst rest.
+      rewrite H2 in V. injection V as <-. eauto.
+    + intros [w' [Q ->]]. injection Q as <- <-. exists e0. split; [exact E0|]. apply (H _ E0).
+Qed.
+
+Theorem triangular_affine t mn mx mode mn' mx' mode' a b ws rest y : 0 < b ->
+  dyR mn' = a + b * dyR mn -> dyR mx' = a + b * dyR mx -> dyR mode' = a + b * dyR mode ->
+  (exists e, evals (triangular t mn mx mode ws) (e, rest) /\ evalX e = Xreal y) ->
+  (exists e', evals (triangular t mn' mx' mode' ws) (e', rest) /\ evalX e' = Xreal (a + b * y)).
+Proof.
+  intros Hb E1 E2 E3 H. apply triangular_sem in H. destruct H as [w [-> ->]].
+  apply triangular_sem. exists w. split; [reflexivity|]. rewrite E1, E2, E3. symmetry. now apply Q_tri_affine.
+Qed.
+
+(* ---- definitional facts restated for Props/C07.v --------------------------------------------------------- *)
+Lemma normal_from_zscore_spec mean sd z :
+  normal_from_zscore mean sd z = Bin Add (dyx mean) (Bin Mul (dyx sd) z) /\
+  evalX (normal_from_zscore mean sd z) = Xadd (xdy (fst mean) (snd mean)) (Xmul (xdy (fst sd) (snd sd)) (evalX z)) /\
+  evalX (normal_from_zscore mean sd z) = Xadd (Xreal (dyR mean)) (Xmul (Xreal (dyR sd)) (evalX z)).
+Proof. repeat split. apply normal_from_zscore_eval. Qed.
+Lemma lognormal_from_zscore_spec mu sigma z :
+  lognormal_from_zscore mu sigma z = Un Exp (Bin Add (dyx mu) (Bin Mul (dyx sigma) z)) /\
+  evalX (lognormal_from_zscore mu sigma z) = Xexp (Xadd (Xreal (dyR mu)) (Xmul (Xreal (dyR sigma)) (evalX z))).
+Proof. split; [reflexivity|apply lognormal_from_zscore_eval]. Qed.
+Lemma std_samplers_spec t shape :
+  cauchy_std t = sbind (draw_std t) (fun x => sret (etan (Bin Mul Pi x))) /\
+  gumbel_std t = sbind (draw_oc t) (fun x => sret (eln (eneg (eln x)))) /\
+  frechet_std t shape = sbind (draw_oc t) (fun x => sret (epow (eneg (eln x)) (eneg (Bin Div one (dyx shape))))) /\
+  pareto_std t shape = sbind (draw_oc t) (fun u => sret (epow u (Bin Div (num (-1)) (dyx shape)))) /\
+  weibull_std t shape = sbind (draw_oc t) (fun x => sret (epow (eneg (eln x)) (Bin Div one (dyx shape)))).
+Proof. repeat split. Qed.
+Lemma gamma_scale_spec shape scale v :
+  gamma_scale shape scale v =
+  if dy_eqb shape (1, 0)%Z then Bin Mul v (Bin Div one (Bin Div one (dyx scale)))
+  else if dy_ltb shape (1, 0)%Z then Bin Mul v (dyx scale)
+  else Bin Mul v (Bin Mul (Bin Sub (dyx shape) (rat 1 3)) (dyx scale)).
+Proof. unfold gamma_scale. destruct (dy_eqb shape (1, 0)%Z); [|destruct (dy_ltb shape (1, 0)%Z)]; reflexivity. Qed.
+Lemma gamma_fac_spec shape :
+  gamma_fac shape = if dy_eqb shape (1, 0)%Z then 1 else if dy_ltb shape (1, 0)%Z then 1 else dyR shape - 1 / 3.
+Proof. reflexivity. Qed.
+Lemma req_iff_eq {A} (r1 r2 : run A) : req r1 r2 <-> r1 = r2.
+Proof. split; [apply req_eq|apply eq_req]. Qed.
+
+(* ================================================================================================== *)
+(* ---- Pert: x -> a + b x applied to (min, max, mode), b > 0 ------------------------------------------- *)
+(* The Beta parameters v = 1 + shape (mode - min)/(max - min) and w are unchanged as real numbers but are
+   different expressions; so the two trees are related by `rsim`: same shape, the two sides of every
+   decision have the same exact value, related leaves.                                                 *)
+Definition xeq (e1 e2 : expr) : Prop := evalX e1 = evalX e2.
+
+Inductive rsim {A} (R : A -> A -> Prop) : run A -> run A -> Prop :=
+| SRet a a' : R a a' -> rsim R (Ret a) (Ret a')
+| SAsk c a b k a' b' k' : xeq a a' -> xeq b b' -> (forall t, rsim R (k t) (k' t)) ->
+    rsim R (Ask c a b k) (Ask c a' b' k')
+| SFloor e k e' k' : xeq e e' -> (forall z, rsim R (k z) (k' z)) -> rsim R (AskFloor e k) (AskFloor e' k')
+| SFail c : rsim R (Fail c) (Fail c).
+
+Lemma rsim_evals {A} (R : A -> A -> Prop) r r' v :
+  rsim R r r' -> evals r v -> exists v', evals r' v' /\ R v v'.
+Proof.
+  intros H. revert v. induction H as [a a' Ha|c a b k a' b' k' Ea Eb Hk IH|e k e' k' Ee Hk IH|c]; intros v E;
+    inversion E; subst.
+  - exists a'. split; [constructor|exact Ha].
+  - destruct (IH _ _ H6) as [v' [E' Rv]]. exists v'. split; [|exact Rv].
+    eapply EvAsk; [rewrite <- Ea; eassumption|rewrite <- Eb; eassumption|exact E'].
+  - destruct (IH _ _ H3) as [v' [E' Rv]]. exists v'. split; [|exact Rv].
+    eapply EvFloor; [rewrite <- Ee; eassumption|exact E'].
+Qed.
+Lemma rsim_bind {A B} (R : A -> A -> Prop) (Q : B -> B -> Prop) r r' (k k' : A -> run B) :
+  rsim R r r' -> (forall a a', R a a' -> rsim Q (k a) (k' a')) -> rsim Q (bind r k) (bind r' k').
+Proof. intros H Hk. induction H; cbn; try constructor; auto. Qed.
+
+(* leaves: expressions of equal value, the same remaining words *)
+Definition leq (p p' : expr * list Z) : Prop := xeq (fst p) (fst p') /\ snd p = snd p'.
+
+Ltac xeq_tac := unfold xeq in *; cbn [evalX xbin xun esqrt eexp eln eabs epow etan eneg efloor]; congruence.
+Ltac simstep := cbn [beta_bb beta_bc sbind bind draw_open draw_std draw_oc next_word sret sask sfail negb fst snd].
+Ltac sim_leaf := constructor; split; [cbn [fst]; xeq_tac|reflexivity].
+
+Lemma beta_bb_sim fuel t a b al be ga a' b' al' be' ga' ws :
+  xeq a a' -> xeq b b' -> xeq al al' -> xeq be be' -> xeq ga ga' ->
+  rsim leq (beta_bb fuel t a b al be ga ws) (beta_bb fuel t a' b' al' be' ga' ws).
+Proof.
+  intros Ha Hb Hal Hbe Hga. revert ws. induction fuel as [|f IH]; intros ws; [constructor|].
+  destruct ws as [|w1 [|w2 ws]]; [constructor|constructor|].
+  simstep. constructor; [xeq_tac|xeq_tac|]. intros [|]; simstep; [sim_leaf|].
+  constructor; [xeq_tac|xeq_tac|]. intros [|]; simstep; [sim_leaf|].
+  constructor; [xeq_tac|xeq_tac|]. intros [|]; simstep; [apply IH|sim_leaf].
+Qed.
+Lemma beta_bc_sim fuel t a b al be k1 k2 a' b' al' be' k1' k2' ws :
+  xeq a a' -> xeq b b' -> xeq al al' -> xeq be be' -> xeq k1 k1' -> xeq k2 k2' ->
+  rsim leq (beta_bc fuel t a b al be k1 k2 ws) (beta_bc fuel t a' b' al' be' k1' k2' ws).
+Proof.
+  intros Ha Hb Hal Hbe Hk1 Hk2. revert ws. induction fuel as [|f IH]; intros ws; [constructor|].
+  destruct ws as [|w1 [|w2 ws]]; [constructor|constructor|].
+  simstep. constructor; [xeq_tac|xeq_tac|]. intros [|]; simstep.
+  - constructor; [xeq_tac|xeq_tac|]. intros [|]; simstep; [apply IH|].
+    constructor; [xeq_tac|xeq_tac|]. intros [|]; simstep; [apply IH|sim_leaf].
+  - constructor; [xeq_tac|xeq_tac|]. intros [|]; simstep; [sim_leaf|].
+    constructor; [xeq_tac|xeq_tac|]. intros [|]; simstep; [apply IH|].
+    constructor; [xeq_tac|xeq_tac|]. intros [|]; simstep; [apply IH|sim_leaf].
+Qed.
+Lemma beta_e_sim t lt gt1 a0 b0 a0' b0' ws :
+  xeq a0 a0' -> xeq b0 b0' -> rsim leq (beta_e t lt gt1 a0 b0 ws) (beta_e t lt gt1 a0' b0' ws).
+Proof.
+  intros Ha Hb. unfold beta_e. destruct lt, gt1; cbn [negb]; unfold sbind.
+  all: eapply rsim_bind; [first [apply beta_bb_sim|apply beta_bc_sim]; xeq_tac|];
+    intros [w ws1] [w' ws1'] [Hw Hws]; cbn [fst snd] in Hw, Hws; subst ws1'; cbn [sret]; sim_leaf.
+Qed.
+
+Section Pert.
+Variables (mn mx mode mn' mx' mode' shape : Z * Z) (a b : R).
+Hypothesis Hb : 0 < b.
+Hypothesis Emn : dyR mn' = a + b * dyR mn.
+Hypothesis Emx : dyR mx' = a + b * dyR mx.
+Hypothesis Emode : dyR mode' = a + b * dyR mode.
+
+Lemma pert_param_xeq (P Q P' Q' : Z * Z) :
+  dyR P' = a + b * dyR P -> dyR Q' = a + b * dyR Q ->
+  xeq (one +. dyx shape *. (dyx P -. dyx Q) /. (dyx mx -. dyx mn))
+      (one +. dyx shape *. (dyx P' -. dyx Q') /. (dyx mx' -. dyx mn')).
+Proof.
+  intros EP EQ. unfold xeq. cbn [evalX xbin]. rewrite !dyx_eval, one_eval. cbn [Xsub Xmul Xdiv Xbind2].
+  unfold Xdiv'. rewrite EP, EQ, Emx, Emn.
+  destruct (is_zero_spec (dyR mx - dyR mn)) as [Z|Z];
+    destruct (is_zero_spec (a + b * dyR mx - (a + b * dyR mn))) as [Z'|Z']; try reflexivity.
+  - exfalso. apply Z'. nra.
+  - exfalso. apply Z. nra.
+  - cbn [Xadd]. f_equal. field. split; assumption.
+Qed.
+
+(* related leaves: same remaining words; the value is mapped by x -> a + b x *)
+Definition pert_rel (p p' : expr * list Z) : Prop :=
+  snd p = snd p' /\ forall y, evalX (fst p) = Xreal y -> evalX (fst p') = Xreal (a + b * y).
+
+Lemma pert_sim t ws : rsim pert_rel (pert t mn mx mode shape ws) (pert t mn' mx' mode' shape ws).
+Proof.
+  pose proof (pert_param_xeq mode mn mode' mn' Emode Emn) as Hv.
+  pose proof (pert_param_xeq mx mode mx' mode' Emx Emode) as Hw.
+  unfold pert. cbn [sbind sask bind]. constructor; [exact Hv|exact Hw|]. intros lt.
+  constructor; [destruct lt; assumption|reflexivity|]. intros gt1.
+  eapply rsim_bind; [apply beta_e_sim; assumption|].
+  intros [bb ws1] [bb' ws1'] [Hbb Hws]. cbn [fst snd] in Hbb, Hws. subst ws1'. cbn [sret]. constructor.
+  split; [reflexivity|]. cbn [fst]. intros y. unfold xeq in Hbb. cbn [evalX xbin]. rewrite !dyx_eval, <- Hbb.
+  destruct (evalX bb) as [|rb]; [discriminate|]. cbn [Xsub Xmul Xadd]. intros H. injection H as <-.
+  rewrite Emx, Emn. f_equal. ring.
+Qed.
+
+Theorem pert_affine t ws rest y :
+  (exists e, evals (pert t mn mx mode shape ws) (e, rest) /\ evalX e = Xreal y) ->
+  (exists e', evals (pert t mn' mx' mode' shape ws) (e', rest) /\ evalX e' = Xreal (a + b * y)).
+Proof.
+  intros [e [E V]]. destruct (rsim_evals _ _ _ _ (pert_sim t ws) E) as [[e' rest'] [E' [Hr Hy]]].
+  cbn [fst snd] in Hr, Hy. subst rest'. exists e'. split; [exact E'|apply Hy, V].
+Qed.
+End Pert.
